@@ -307,6 +307,26 @@ def exec_case(case):
             if a.dtype == torch.bfloat16 and w._data.dtype == torch.int8 and case["inf"] % 16 == 0:
                 res = cut(ORIG["qbytes_int8pack_mm"], a, w._data, scales)
                 judge(out, f"route-int8pack/{tagbase}", case, res, refnb, magnb, x, w, want_shape, dtype)
+    # weights that live at an address which is not 16-byte aligned (memory-mapped checkpoints), and ANOTHER set of weights
+    # written later to the very same address (a staging buffer reused for the next checkpoint): each call sees its own weights
+    if entry == "linear" and isinstance(w, QBytesTensor) and not isinstance(x, QTensor) and w._data.ndim == 2 and not out.failures:
+        N, K = w._data.shape
+        buf = torch.empty(N * K + 1, dtype=torch.int8).view(w._data.dtype)
+        slot = buf[1:].view(N, K)
+
+        def staged(codes):
+            slot.copy_(codes)
+            return QBytesTensor(w.qtype, w.axis, slot.size(), slot.stride(), slot, w._scale)
+
+        for label, codes in (("first", w._data), ("reused-address", w._data.view(torch.int8).flip(1).contiguous().view(w._data.dtype))):
+            wv = cut(staged, codes)
+            if isinstance(wv, Raised):
+                break
+            refv, magv = reference(x, wv, b)
+            res = cut(F.linear, x, wv, b)
+            judge(out, f"linear-unaligned-{label}/{tagbase}", case, res, refv, magv, x, wv, want_shape, dtype)
+            if out.failures:
+                break
     # the operands are only read: the product of the dequantized operands is the same after the call
     ref_after = cut(lambda: reference(x, w, b)[0])
     if isinstance(ref_after, Raised) or not torch.equal(ref_after.nan_to_num(), ref.nan_to_num()):
